@@ -105,6 +105,13 @@ CHECKS.update({
         'technique': 'Lean 4 theorems over the row-level revert model + exhaustive per-version-row differential runs judged by Lean predicates', 'engine': 'revert-harness'},
 })
 
+CHECKS.update({
+    'C14': {
+        'text': 'Theorem c14_equiv_first_partial: for every WellFormed trigger program and every row event that is the first event on its row in the transaction, on every version table carrying the invariants the object path maintains, the trigger leaves exactly the table the object-based path leaves (values, operation type, validity bounds, flags); c14_silent (nothing without an active transaction id or for an update that changes nothing outside the excluded columns); c14_sync_excluded; sampleProg_wellFormed and two counterexample theorems (open findings F-TRG1/F-TRG2: several events on one row within a transaction). Translation validation each run: the REAL generated trigger text is parsed into the program AST and `WellFormed cfg prog` is kernel-checked in a generated Lean file; the actual generated data statements are executed on SQLite by a shim and compared with (a) the Lean interpreter of the parsed program and (b) the real object-based path on the same row events.',
+        'note': COMMON_NOTE + 'PARTIAL: PostgreSQL is not installed - PL/pgSQL control flow, hstore subtraction and the CTE upsert are modelled/emulated, never executed natively; flat models only; the theorem covers the first event per row per transaction (the full statement is false of the current generator: known findings); delete-nullification and the trigger rebuilt by sync_trigger are not compared.',
+        'technique': 'Lean 4 theorem over the trigger-program AST + per-run kernel-checked translation validation of the generated SQL + three-way differential (generated statements on SQLite / Lean interpreter / real object path)', 'engine': 'trigger-harness'},
+})
+
 NOT_APPLICABLE = {}
 
 ENGINES = [
@@ -116,6 +123,7 @@ ENGINES = [
     {'name': 'twin-harness', 'path': 'harness/props/c07.py', 'serves_properties': ['C07'], 'kind_free_text': 'runs every program with and without make_versioned and compares outcomes and application tables'},
     {'name': 'schedule-harness', 'path': 'harness/props/c09.py', 'serves_properties': ['C09'], 'kind_free_text': 'k sessions on own connections sharing the global manager, interleaved by sampled/enumerated schedules'},
     {'name': 'revert-harness', 'path': 'harness/props/c05.py', 'serves_properties': ['C05'], 'kind_free_text': 'replays a history per (version row, relationship set), reverts, commits, compares rows before/after'},
+    {'name': 'trigger-harness', 'path': 'harness/props/c14.py', 'serves_properties': ['C14'], 'kind_free_text': 'parses the generated PL/pgSQL, executes its data statements on SQLite through a shim, compares with the Lean interpreter and the real object path'},
     {'name': 'table-harness', 'path': 'harness/props/tables.py', 'serves_properties': ['C08', 'C15', 'C16', 'C19', 'C20'], 'kind_free_text': 'fills real version tables directly, runs the real accessor/tool, compares with the Lean model'},
 ]
 
